@@ -1099,6 +1099,65 @@ func run(a *hlib.Args, e *hlib.Emitter) error {
 				k++
 			}
 		}
+		// always part of a run: client-subnet option x small advertised sizes x the
+		// names with large replies, over UDP (and once over TCP): the echoed option
+		// has to be inside the size the reply is cut to.  Besides 512/600/1232 the
+		// advertised size is put just below the uncompressed length U of the full
+		// reply (U-1, U-9), where the reply fits only after compression/truncation.
+		type ecsSpec struct {
+			fam  uint16
+			bits uint8
+			addr net.IP
+		}
+		ecsSpecs := []ecsSpec{{1, 24, net.IPv4(192, 0, 2, 0).To4()}, {2, 56, net.ParseIP("2001:db8:77::")}, {2, 128, net.ParseIP("2001:db8::1")}}
+		bigQs := []dns.Question{
+			{Name: "manymx.c20.test.", Qtype: dns.TypeMX, Qclass: dns.ClassINET},
+			{Name: "deep.sub.c20.test.", Qtype: dns.TypeA, Qclass: dns.ClassINET},
+			{Name: "big.c20.test.", Qtype: dns.TypeTXT, Qclass: dns.ClassINET},
+			{Name: "mid.c20.test.", Qtype: dns.TypeTXT, Qclass: dns.ClassINET},
+			{Name: "sub.c20.test.", Qtype: dns.TypeNS, Qclass: dns.ClassINET},
+		}
+		mk := func(q dns.Question, es ecsSpec, size int, id int) []byte {
+			m := new(dns.Msg)
+			m.Id = uint16(id)
+			m.Question = []dns.Question{q}
+			o := new(dns.OPT)
+			o.Hdr.Name = "."
+			o.Hdr.Rrtype = dns.TypeOPT
+			o.SetUDPSize(uint16(size))
+			o.Option = append(o.Option, &dns.EDNS0_SUBNET{Code: dns.EDNS0SUBNET, Family: es.fam, SourceNetmask: es.bits, Address: es.addr})
+			m.Extra = []dns.RR{o}
+			w, _ := m.Pack()
+			return w
+		}
+		kk := 0
+		for qi, q := range bigQs {
+			for ei, es := range ecsSpecs {
+				conf := ru.confs[(qi*len(ecsSpecs)+ei)%len(ru.confs)]
+				bh, err := ru.bare.get(a.Scratch, conf.Driver, conf.Compress)
+				if err != nil {
+					return err
+				}
+				ip := fmt.Sprintf("127.0.0.%d", 1+kk%4)
+				sizes := []int{[]int{512, 600, 1232}[kk%3], []int{600, 1232, 512}[kk%3]}
+				if _, fm := runBare(bh, mk(q, es, 4096, 1), conf.IPs[ip], true); fm != nil {
+					u := sizesOf(fm).Ulen
+					for _, d := range []int{1, 9} {
+						if u-d >= 512 {
+							sizes = append(sizes, u-d)
+						}
+					}
+				}
+				for si, size := range sizes {
+					w := mk(q, es, size, 8000+kk*8+si)
+					addPlan(conf, plan{class: "ecs-size", ip: ip, proto: "udp", wire: w})
+					if si == 0 {
+						addPlan(conf, plan{class: "ecs-size", ip: ip, proto: "tcp", wire: w})
+					}
+				}
+				kk++
+			}
+		}
 		// cache configurations (opt-in): the same address query on the max-answer-1
 		// listener first and on the max-answer-4 listener afterwards
 		for _, conf := range ru.confs {
